@@ -213,6 +213,14 @@ func (fc *FCtx) pureExternCall(name string, fn *types.Func, e *ast.CallExpr, rec
 		if strings.HasPrefix(a.T, "@") {
 			oos("handle passed to external function %s", name)
 		}
+		// an argument whose term contains an if-then-else (tdiv/tmod/abs/min/max expand to one) is named by a fresh
+		// constant: applications of uninterpreted functions are used as quantifier triggers, and `ite` is not
+		// allowed inside a trigger
+		if a.S.Kind == KInt && (strings.Contains(a.T, "(ite ") || strings.Contains(a.T, "(tdiv ") || strings.Contains(a.T, "(tmod ") || strings.Contains(a.T, "(iabs ") || strings.Contains(a.T, "(imax ") || strings.Contains(a.T, "(imin ")) {
+			c := fc.U.Fresh("arg", a.S)
+			st.assume(fmt.Sprintf("(= %s %s)", c, a.T))
+			a.T = c
+		}
 		sorts = append(sorts, a.S)
 		ts = append(ts, a.T)
 	}
@@ -529,7 +537,7 @@ func (fc *FCtx) evalAppend(e *ast.CallExpr, st *State) Val {
 		st.assume(fmt.Sprintf("(forall ((%s Int)) (! (=> (and (<= %s %s) (< %s (+ %s %s))) (= (select %s %s) (select %s (- %s %s)))) :pattern ((select %s %s))))", iv, slLen(s), iv, iv, slLen(s), slLen(o), arr, iv, slEl(o), iv, slLen(s), arr, iv))
 		nl := app("+", slLen(s), slLen(o))
 		nc := fc.U.Fresh("cap", SInt)
-		st.assume(fmt.Sprintf("(>= %s %s)", nc, nl))
+		st.assume(fmt.Sprintf("(and (>= %s %s) (<= %s 9223372036854775807))", nc, nl, nc))
 		return Val{T: mkSlice(rs, nl, nc, arr), S: rs, GoT: t}
 	}
 	cur := s
@@ -538,7 +546,7 @@ func (fc *FCtx) evalAppend(e *ast.CallExpr, st *State) Val {
 		v := fc.coerce(fc.eval(a, st), et)
 		nl := app("+", slLen(cur), "1")
 		nc := fc.U.Fresh("cap", SInt)
-		st.assume(fmt.Sprintf("(and (>= %s %s) (=> (< %s %s) (= %s %s)))", nc, nl, slLen(cur), slCap(cur), nc, slCap(cur)))
+		st.assume(fmt.Sprintf("(and (>= %s %s) (<= %s 9223372036854775807) (=> (< %s %s) (= %s %s)))", nc, nl, nc, slLen(cur), slCap(cur), nc, slCap(cur)))
 		cur = Val{T: mkSlice(rs, nl, nc, fmt.Sprintf("(store %s %s %s)", slEl(cur), slLen(cur), v.T)), S: rs, GoT: t}
 	}
 	return cur
@@ -685,6 +693,8 @@ func (fc *FCtx) callByContract(c *FuncContract, fn *types.Func, sig *types.Signa
 		env := &Env{fc: fc, st: st, old: pre, names: names, pkg: fc.E.pkgOfContract(c), gsuf: gsuf}
 		t := fc.specBool(r.Expr, env)
 		fc.oblige(st, "call-pre@"+shortKey(c.Key), t, fmt.Sprintf("requires[%d] of %s: %s", i, c.Key, r.Src), e.Pos())
+		// once it has been shown (its own obligation) the precondition is a fact on this path
+		st.assume(t)
 	}
 	if c.Extern || c.Flags["trusted"] != "" {
 		fc.assumed[c.Key] = true
